@@ -47,6 +47,41 @@ class Wire(object):
         return body
 
 
+class RawRequest(object):
+    """a real native-protocol request frame, parsed just enough to script an answer"""
+
+    def __init__(self, protocol_version, data):
+        import struct
+        self.data = data
+        self.version = data[0] & 0x7f
+        if self.version >= 3:
+            self.flags, self.stream, self.opcode, self.length = struct.unpack('>BhBi', data[1:9])
+            self.body = data[9:]
+        else:
+            self.flags, self.stream, self.opcode, self.length = struct.unpack('>BbBi', data[1:8])
+            self.body = data[8:]
+        self.query = None
+        if self.opcode == 0x07:      # QUERY: <long string>
+            n = struct.unpack('>i', self.body[:4])[0]
+            self.query = self.body[4:4 + n].decode('utf8')
+        self._tag = None
+
+    def __repr__(self):
+        return '<RawRequest opcode=%#x stream=%d query=%r>' % (self.opcode, self.stream, self.query)
+
+
+def result_set_keyspace_body(ks):
+    import struct
+    b = ks.encode('utf8')
+    return struct.pack('>i', 3) + struct.pack('>H', len(b)) + b
+
+
+def error_body(code, message, extra=b''):
+    import struct
+    m = message.encode('utf8')
+    return struct.pack('>i', code) + struct.pack('>H', len(m)) + m + extra
+
+
 class Server(object):
     """what the node at the other end of a connection has received and not answered"""
 
@@ -100,6 +135,10 @@ class RFWorld(object):
 
     # -- transport
     def _on_push(self, conn, data):
+        if isinstance(data, (bytes, bytearray)):
+            # a frame produced by the real encoder (requests the driver sends for itself: USE, OPTIONS, ...)
+            raw = RawRequest(conn.protocol_version, bytes(data))
+            data = ('REQ', None, raw.stream, raw)
         if not (isinstance(data, tuple) and data and data[0] == 'REQ'):
             return None
         if self.push_error is not None:
@@ -149,7 +188,11 @@ class RFWorld(object):
         """the server's answer for `stream` arrives on conn"""
         d = self.server.outstanding.get(conn, {})
         d.pop(stream, None)
-        frame = _Frame(conn.protocol_version, 0, stream, 8, 9, 9)
+        opcode = 8
+        if isinstance(response, tuple) and response and response[0] == 'RAW':
+            # ('RAW', opcode, body bytes): decoded by the real protocol decoder
+            opcode, response = response[1], response[2]
+        frame = _Frame(conn.protocol_version, 0, stream, opcode, 9, 9)
         conn.process_msg(frame, response)
 
     def rows(self, tag):
